@@ -4,6 +4,7 @@ package vc
 
 import (
 	"fmt"
+	"sort"
 	"go/token"
 	"go/types"
 	"strconv"
@@ -31,6 +32,7 @@ func (fr *frame) instr(in ssa.Instruction, st *State) {
 		}
 		r := s.allocRef(st, fr.name(x))
 		fr.zeroInit(st, et, r, 0)
+		fr.ghostDefaults(st, r)
 		fr.vals[x] = TV{T: r, S: "Int", GT: x.Type()}
 		if _, isStruct := et.Underlying().(*types.Struct); !isStruct {
 			fr.locs[x] = &loc{kind: locCell, base: r, mapName: CellMapName(et), sort: SortOf(et), gt: et}
@@ -655,4 +657,30 @@ func (fr *frame) next(x *ssa.Next, st *State) {
 		s.note("%s: range over string abstracted", FuncKey(fr.fn))
 	}
 	fr.vals[x] = TV{S: "Tuple", Tup: []TV{ok, k, v}}
+}
+
+// ghostDefaults initialises per-object ghost maps at a fresh reference.
+func (fr *frame) ghostDefaults(st *State, ref string) {
+	s := fr.s
+	var names []string
+	for n, g := range s.P.Specs.Ghost {
+		if g.Default != "" {
+			names = append(names, n)
+		}
+	}
+	sort.Strings(names)
+	for _, n := range names {
+		g := s.P.Specs.Ghost[n]
+		so, _ := s.P.specType(g.Sort)
+		e, err := ParseExpr(g.Default)
+		if err != nil {
+			s.fail("ghost default of %s: %v", n, err)
+			return
+		}
+		env := s.newEnv(nil)
+		env.st, env.old = st, st
+		d := s.eval(env, e)
+		cur := s.getMap(st, "H:"+n, so)
+		st.Maps["H:"+n] = s.define("H:"+n, so, fmt.Sprintf("(store %s %s %s)", cur, ref, d.T))
+	}
 }
